@@ -67,7 +67,7 @@ Definition constcast_audit : list ((string * string * string * string * nat) * v
     (("Include/XalanAutoPtr.hpp", "XalanAutoPtr", "XalanAutoPtr::XalanAutoPtr", "XalanAutoPtr<Type>&", 1), ConstructionOnly, "auto_ptr-style ownership transfer in the copy constructor; shared objects are not copied by transformations");
     (("Include/XalanDeque.hpp", "XalanDeque", "XalanDeque::begin const", "XalanDeque*", 1), ReadOnly, "forwards to the non-const begin(), which only builds an iterator");
     (("Include/XalanDeque.hpp", "XalanDeque", "XalanDeque::end const", "XalanDeque*", 1), ReadOnly, "forwards to the non-const end(), which only builds an iterator");
-    (("Include/XalanList.hpp", "XalanList", "XalanList::getListHead const", "XalanList*", 1), SharedWrite, "FINDING KT2: forwards to the non-const getListHead(), which ALLOCATES and stores m_listHead when the list was never used; reached from begin()/end() const, hence from XalanMap::end()/find() const on an empty map, e.g. XalanSourceTreeDocument::getElementById on a shared source without IDs");
+    (("Include/XalanList.hpp", "XalanList", "XalanList::getListHead const", "XalanList*", 1), SharedWrite, "FINDING KT2: forwards to the non-const getListHead(), which ALLOCATES and stores m_listHead when the list was never used; reached from begin()/end() const, hence from XalanMap::end()/find() const on an empty map, e.g. XalanSourceTreeDocument::getElementById / getUnparsedEntityURI on a shared source without IDs / unparsed entities (the head cannot simply be allocated in the constructor: static containers are built with the throwing dummy memory manager)");
     (("Include/XalanMap.hpp", "XalanMap", "XalanMap::begin const", "XalanMap*", 1), ReadOnly, "forwards to non-const begin(); the only write below it is XalanList::getListHead (audited there)");
     (("Include/XalanMap.hpp", "XalanMap", "XalanMap::doCreateEntry", "key_type*", 1), NonConstPath, "in-place construction of the key of a new entry; doCreateEntry is a non-const member (insert / operator[])");
     (("Include/XalanMap.hpp", "XalanMap", "XalanMap::end const", "XalanMap*", 1), ReadOnly, "forwards to non-const end(); the only write below it is XalanList::getListHead (audited there)");
